@@ -56,7 +56,9 @@ def jobs(tier):
                     dict(version=version, shape="flat2", P=16384, K=2, layout="flat", decoy="before", pre="empty", damage="first-missing")))
     for version in (1, 2):
         out.append(("v%d.hostile-name-into-search-dir" % version, "job_hostile", dict(version=version)))
+    for version in (1, 2, 3):
         out.append(("v%d.two-releases-same-destination" % version, "job_two_releases", dict(version=version, releases=2)))
+        out.append(("v%d.source-replaced-by-decoy-then-rebuild-again" % version, "job_replaced", dict(version=version, replaced=True)))
     for version in (1, 2, 3):
         # entries named like the torrent itself; two files with one base name in different directories (one piece can
         # hold both)
@@ -67,6 +69,34 @@ def jobs(tier):
         out.append(("v%d.dir1.flat.pre-empty.decoy-none" % version, "job", dict(version=version, shape="dir1", P=16384, K=2, layout="flat", decoy="none", pre="empty")))
     out.extend(rw.matrix_rows(tier, "C14"))
     return out
+
+
+def job_replaced(E, version, replaced=True, _mutants=None):
+    """A first rebuild sees the genuine file at a search path; the file is then replaced in place by a same-sized file
+    with other bytes, and rebuild runs again (same process, fresh destination): the impostor is not placed."""
+    P = 16384
+    fs = AFS(order="reversed")
+    sizes = {"name/a": E.int("s0", 1, 2 * P), "name/b": E.int("s1", 1, P)}
+    E.note("shape", "flat2")
+    fs.add("/src/a", ("f", 0), sizes["name/a"])
+    fs.add("/src/b", ("f", 1), sizes["name/b"])
+    meta = rk.ref_meta(E, version, "flat2", sizes, P, False, True)
+    fs.add_token("/t/m.torrent", BenTok(meta))
+    fs.mkdirs("/dest")
+    fs.mkdirs("/dest2")
+    w = World(fs, mutants=_mutants)
+    ok, _ = rw.run_rebuild(E, w, ["/t/m.torrent"], ["/src"], "/dest", "C14.replaced.first")
+    if not ok:
+        return
+    fs.add("/src/a", ("decoy", 0), sizes["name/a"])
+    ok, _ = rw.run_rebuild(E, w, ["/t/m.torrent"], ["/src"], "/dest2", "C14.replaced")
+    if not ok:
+        return
+    node = fs.files.get("/dest2/name/a")
+    E.check(node is None or not _is_decoy(node.content), "C14.replaced.placed-file-verifies",
+            "after the search file was replaced by an impostor of the same size, the second rebuild placed the impostor")
+    for k in WITNESSES:
+        E.witnesses.setdefault(k, True)
 
 
 def job_two_releases(E, version, releases=2, _mutants=None):
@@ -295,6 +325,28 @@ def replay(params, model, notes, workdir, seed):
     from harness import c13
     if "releases" in params:
         return _replay_releases(params, model, workdir, seed)
+    if params.get("replaced"):
+        import io
+        import contextlib
+        P = 16384
+        s0, s1 = int(model["s0"]), int(model["s1"])
+        a, b = refconc.content(("f", 0), s0, seed), refconc.content(("f", 1), s1, seed)
+        refconc.write_file(workdir + "/src/a", a)
+        refconc.write_file(workdir + "/src/b", b)
+        refconc.write_file(workdir + "/t/m.torrent", refconc.bencode(refconc.build_meta([(["a"], a), (["b"], b)], P, params["version"])))
+        os.makedirs(workdir + "/dest")
+        os.makedirs(workdir + "/dest2")
+        mods = cr.real_torrentfile()
+        fake = refconc.content(("decoy", 0), s0, seed)
+        try:
+            with contextlib.redirect_stdout(io.StringIO()):
+                mods["torrentfile.rebuild"].Assembler([workdir + "/t/m.torrent"], [workdir + "/src"], workdir + "/dest").assemble_torrents()
+                refconc.write_file(workdir + "/src/a", fake)
+                mods["torrentfile.rebuild"].Assembler([workdir + "/t/m.torrent"], [workdir + "/src"], workdir + "/dest2").assemble_torrents()
+        except Exception as ex:  # noqa: BLE001
+            return ["C14.replaced.no-exception: %s: %s" % (type(ex).__name__, ex)]
+        p_ = workdir + "/dest2/name/a"
+        return ["C14.replaced.placed-file-verifies"] if os.path.isfile(p_) and open(p_, "rb").read() == fake else []
     if "shape" not in params:
         return _replay_hostile(params, model, workdir, seed)
     sizes, data, expected = rw.conc_world(params, model, workdir, seed)
